@@ -31,9 +31,9 @@ BUILT = {
         "DESIGN.md §4 C05",
     ),
     "C07": (
-        "exhaustive enumeration of wrong-signature variants with instruction-level trace comparison (ptrace single-step of forked children)",
-        "The property's own quantifier is finite: for each (request, key) group every position 0..63 (only that character wrong; thorough: also all characters from p on wrong) is traced instruction by instruction in a forked, warmed-up child of a single-threaded tracer built with the ship profile and a byte-wise early-exit memcmp/bcmp; every trace must equal the group's reference trace in length and RIP-sequence hash; the reference is traced twice to prove the apparatus deterministic; an upper-case family and a family traced with a logger installed at Debug level are compared with their own references.",
-        "Control flow only (no cache/micro-architecture); x86-64 build as compiled here; needs ptrace on own children. Hooks: none in the repository (memcmp/bcmp are overridden in the harness binary only).",
+        "exhaustive enumeration of wrong-signature variants with instruction-level trace comparison (forked children single-stepping themselves through the trap flag; ptrace stepper as fallback)",
+        "The property's own quantifier is finite: for each (request, key) group every position 0..63 (only that character wrong; thorough: also all characters from p on wrong) is traced instruction by instruction (trap flag + SIGTRAP handler in the child; VH_C07_PTRACE=1 selects a ptrace stepper) in a forked, warmed-up child of a single-threaded tracer built with the ship profile and a byte-wise early-exit memcmp/bcmp; every trace must equal the group's reference trace in length and RIP-sequence hash; the reference is traced twice to prove the apparatus deterministic; an upper-case family and a family traced with a logger installed at Debug level are compared with their own references.",
+        "Control flow only (no cache/micro-architecture); x86-64 build as compiled here; needs the x86-64 trap flag (or ptrace on own children). Hooks: none in the repository (memcmp/bcmp are overridden in the harness binary only).",
         "DESIGN.md §4 C07",
     ),
     "C08": (
